@@ -183,17 +183,19 @@ class Ctx:
 def load_findings(pid: str) -> dict[str, str]:
     """known: property=C16 sig=<sig> :: text      (fixed: lines suppress nothing)"""
     out = {}
-    path = os.path.join(VERIF, "KNOWN_FINDINGS.txt")
-    if not os.path.exists(path):
-        return out
-    for line in open(path, encoding="utf-8"):
-        line = line.strip()
-        if not line.startswith("known:"):
+    # KNOWN_FINDINGS.txt is the committed file; findings.d/<pid>.txt is a per-property staging file
+    # (same format) used while a check is being built, merged into KNOWN_FINDINGS.txt on integration.
+    for path in (os.path.join(VERIF, "KNOWN_FINDINGS.txt"), os.path.join(VERIF, "findings.d", f"{pid}.txt")):
+        if not os.path.exists(path):
             continue
-        head, _, text = line[len("known:") :].partition("::")
-        fields = dict(f.split("=", 1) for f in head.split() if "=" in f)
-        if fields.get("property") == pid and "sig" in fields:
-            out[fields["sig"]] = text.strip()
+        for line in open(path, encoding="utf-8"):
+            line = line.strip()
+            if not line.startswith("known:"):
+                continue
+            head, _, text = line[len("known:") :].partition("::")
+            fields = dict(f.split("=", 1) for f in head.split() if "=" in f)
+            if fields.get("property") == pid and "sig" in fields:
+                out[fields["sig"]] = text.strip()
     return out
 
 
